@@ -159,7 +159,7 @@ func checkC03(w *World) {
 	done := map[*ssa.Function]bool{}
 	for _, nt := range filterNTs {
 		h := f.Handlers[nt]
-		for _, fn := range w.handlerClosure(h.Fn) {
+		for _, fn := range w.handlerClosureH(h) {
 			if done[fn] {
 				continue
 			}
@@ -178,7 +178,7 @@ func checkC03(w *World) {
 	}
 	sort.Strings(hnts)
 	for _, nt := range hnts {
-		for _, fn := range w.handlerClosure(f.Handlers[nt].Fn) {
+		for _, fn := range w.handlerClosureH(f.Handlers[nt]) {
 			if doneH[fn] || len(fn.Params) == 0 {
 				continue
 			}
@@ -459,11 +459,7 @@ func (w *World) filterLoops(P string, fn *ssa.Function, r *Roles) {
 			}
 			// base must be the NodeSet asserted from the context result
 			base := ia.X
-			if ex, ok := base.(*ssa.Extract); ok {
-				if ta, ok := ex.Tuple.(*ssa.TypeAssert); !ok || !types.Identical(ta.AssertedType, r.NodeSet) {
-					good, why = false, "appended element comes from a slice that is not the incoming node-set"
-				}
-			} else {
+			if !w.isIncomingNodeSet(base, fn, r, 0) {
 				good, why = false, "appended element comes from a slice that is not the incoming node-set"
 			}
 			// index must be an ascending loop counter: phi(-1|0, idx+1)
@@ -501,4 +497,33 @@ func ascendingCounter(v ssa.Value) bool {
 		return false
 	}
 	return okInit && okStep
+}
+
+// isIncomingNodeSet: v is the context result asserted to a node-set, or a parameter of a filter driver for which every
+// caller in the package passes such a value.
+func (w *World) isIncomingNodeSet(v ssa.Value, fn *ssa.Function, r *Roles, depth int) bool {
+	if ex, ok := v.(*ssa.Extract); ok {
+		ta, ok := ex.Tuple.(*ssa.TypeAssert)
+		return ok && types.Identical(ta.AssertedType, r.NodeSet)
+	}
+	p, ok := v.(*ssa.Parameter)
+	if !ok || depth > 2 {
+		return false
+	}
+	idx := -1
+	for i, x := range fn.Params {
+		if x == p {
+			idx = i
+		}
+	}
+	sites := w.callersOf(fn)
+	if idx < 0 || len(sites) == 0 {
+		return false
+	}
+	for _, site := range sites {
+		if idx >= len(site.Call.Args) || !w.isIncomingNodeSet(site.Call.Args[idx], site.Parent(), r, depth+1) {
+			return false
+		}
+	}
+	return true
 }
